@@ -331,10 +331,17 @@ pub fn c04_schedule(seed: u64, index: u64, rep: &mut Report, free: bool) {
 /// C04 single-threaded wrap sweep: all start values x sizes.
 pub fn c04_wrap_sweep(seed: u64, rep: &mut Report) {
     alloc::CONSUMER_PHASE_HOLDS.store(false, Ordering::SeqCst);
-    for sq_size in [1u32, 2, 4, 8] {
+    for sq_size in [1u32, 2, 4, 8, 16, 64, 1024, 4096] {
         let mut starts: Vec<u32> = vec![0, (1 << 31) - 2, (1 << 31) - 1, 1 << 31];
-        for k in 0..=(2 * sq_size + 1) {
-            starts.push(0u32.wrapping_sub(k));
+        if sq_size <= 8 {
+            for k in 0..=(2 * sq_size + 1) {
+                starts.push(0u32.wrapping_sub(k));
+            }
+        } else {
+            // Large queues: the boundary cases only.
+            for k in [0, 1, 2, sq_size - 1, sq_size, sq_size + 1, 2 * sq_size - 1, 2 * sq_size, 2 * sq_size + 1, 3 * sq_size] {
+                starts.push(0u32.wrapping_sub(k));
+            }
         }
         for start in starts {
             simk::reset(seed ^ u64::from(start));
@@ -398,7 +405,7 @@ pub fn c04_wrap_sweep(seed: u64, rep: &mut Report) {
             drop(sq);
             simk::k().sync_fd_events();
             rep.cell(format!("wrap-sweep:size={sq_size}"));
-            let sig = fnv(u64::from(start), &[sq_size as u8, 0x5e]);
+            let sig = fnv(u64::from(start), &[sq_size as u8, (sq_size >> 8) as u8, 0x5e]);
             finish(rep, "c04", seed, u64::from(start), &shared, sig, true, format!("wrap-sweep sq={sq_size} start={start:#x} ops={n_ops} resolved={resolved}"));
         }
     }
